@@ -236,6 +236,90 @@ pub fn run_conv(w: &[&str]) -> String {
             let r: Result<chrono_04::DateTime<chrono_04::Utc>, _> = CqlTimestamp(ms).try_into();
             r.map(|t| format!("{} {}", t.timestamp(), t.timestamp_subsec_millis())).unwrap_or("overflow".to_owned())
         }
+        Some("bounds") => {
+            // the ranges of the external types, from their own constants
+            let epoch = chrono_04::NaiveDate::from_ymd_opt(1970, 1, 1).unwrap();
+            format!(
+                "{} {} {} {} {} {}",
+                chrono_04::NaiveDate::MIN.signed_duration_since(epoch).num_days(),
+                chrono_04::NaiveDate::MAX.signed_duration_since(epoch).num_days(),
+                chrono_04::DateTime::<chrono_04::Utc>::MIN_UTC.timestamp_millis(),
+                chrono_04::DateTime::<chrono_04::Utc>::MAX_UTC.timestamp_millis(),
+                time_03::Date::MIN.to_julian_day(),
+                time_03::Date::MAX.to_julian_day()
+            )
+        }
+        // the four external carriers with their OWN decode code (deserialize/value.rs:618-756), through DeserializeValue
+        Some("de_chrono_date") | Some("de_time_date") => {
+            let Some(d) = num(1) else { return bad() };
+            let ct = ColumnType::Native(NativeType::Date);
+            let bytes = Bytes::copy_from_slice(&(d as u32).to_be_bytes());
+            let slice = Some(FrameSlice::new(&bytes));
+            if w[0] == "de_chrono_date" {
+                use chrono_04::Datelike;
+                match <chrono_04::NaiveDate as DeserializeValue>::deserialize(&ct, slice) {
+                    Ok(x) => (x.num_days_from_ce() as i64 - 719_163).to_string(),
+                    Err(e) => de_kind(&e),
+                }
+            } else {
+                match <time_03::Date as DeserializeValue>::deserialize(&ct, slice) {
+                    Ok(x) => x.to_julian_day().to_string(),
+                    Err(e) => de_kind(&e),
+                }
+            }
+        }
+        Some("de_chrono_dt") | Some("de_time_odt") => {
+            let Some(ms) = num(1) else { return bad() };
+            let ct = ColumnType::Native(NativeType::Timestamp);
+            let bytes = Bytes::copy_from_slice(&ms.to_be_bytes());
+            let slice = Some(FrameSlice::new(&bytes));
+            if w[0] == "de_chrono_dt" {
+                match <chrono_04::DateTime<chrono_04::Utc> as DeserializeValue>::deserialize(&ct, slice) {
+                    Ok(x) => format!("{} {}", x.timestamp(), x.timestamp_subsec_millis()),
+                    Err(e) => de_kind(&e),
+                }
+            } else {
+                match <time_03::OffsetDateTime as DeserializeValue>::deserialize(&ct, slice) {
+                    Ok(x) => format!("{} {}", x.unix_timestamp(), x.nanosecond()),
+                    Err(e) => de_kind(&e),
+                }
+            }
+        }
+        Some("de_chrono_time") | Some("de_time_time") => {
+            let Some(x) = num(1) else { return bad() };
+            let ct = ColumnType::Native(NativeType::Time);
+            let bytes = Bytes::copy_from_slice(&x.to_be_bytes());
+            let slice = Some(FrameSlice::new(&bytes));
+            if w[0] == "de_chrono_time" {
+                use chrono_04::Timelike;
+                match <chrono_04::NaiveTime as DeserializeValue>::deserialize(&ct, slice) {
+                    Ok(t) => format!("{} {}", t.num_seconds_from_midnight(), t.nanosecond()),
+                    Err(e) => de_kind(&e),
+                }
+            } else {
+                match <time_03::Time as DeserializeValue>::deserialize(&ct, slice) {
+                    Ok(t) => {
+                        let (h, m, s, n) = t.as_hms_nano();
+                        format!("{} {} {} {}", h, m, s, n)
+                    }
+                    Err(e) => de_kind(&e),
+                }
+            }
+        }
+        // the `ValueOverflow` serialization arm of `NaiveTime` (leap second in the last second of the day)
+        Some("ser_chrono_time") => {
+            let (Some(secs), Some(frac)) = (num(1), num(2)) else { return bad() };
+            match chrono_04::NaiveTime::from_num_seconds_from_midnight_opt(secs as u32, frac as u32) {
+                Some(t) => {
+                    let mut buf = Vec::new();
+                    match t.serialize(&ColumnType::Native(NativeType::Time), CellWriter::new(&mut buf)) {
+                        Ok(_) => i64::from_be_bytes(buf[4..12].try_into().unwrap()).to_string(),
+                        Err(e) => ser_kind(&e),
+                    }
+                }
+                None => bad(),
+            }
+        }
         Some("chrono_date") => {
             let Some(days) = num(1) else { return bad() };
             match chrono_04::NaiveDate::from_num_days_from_ce_opt((days + 719_163) as i32) {
@@ -249,6 +333,48 @@ pub fn run_conv(w: &[&str]) -> String {
 
 pub fn generate_conv(rng: &mut Rng, n: u64, emit: &mut dyn FnMut(String)) {
     let day_ns = 86_400_000_000_000i64;
+    emit("conv bounds".to_owned());
+    // the external carriers' own decoders (through DeserializeValue), overflow arms included
+    for _ in 0..n / 2 {
+        match rng.below(7) {
+            0 | 1 => {
+                let centre = 1i64 << 31;
+                let d = match rng.below(4) {
+                    0 => *rng.pick(&[0i64, u32::MAX as i64, centre, centre - 96_465_292, centre - 96_465_293, centre + 95_026_236, centre + 95_026_237,
+                        centre - 2_440_588 - 1_930_999, centre - 2_440_588 - 1_931_000, centre - 2_440_588 + 5_373_484, centre - 2_440_588 + 5_373_485]),
+                    1 => rng.range(centre - 100_000_000, centre + 100_000_000),
+                    2 => rng.range(centre - 5_000_000, centre + 4_000_000),
+                    _ => rng.below(1 << 32) as i64,
+                };
+                emit(format!("conv {} {}", if rng.bool() { "de_chrono_date" } else { "de_time_date" }, d))
+            }
+            2 | 3 => {
+                let ms = match rng.below(4) {
+                    0 => *rng.pick(&[0i64, -1, 999, -999, 1000, -1001, i64::MAX, i64::MIN, -8_334_601_228_800_000, -8_334_601_228_800_001,
+                        8_210_266_876_799_999, 8_210_266_876_800_000, 253_402_300_799_999, 253_402_300_800_000, -377_705_116_800_000, -377_705_116_800_001]),
+                    1 => rng.range(-8_400_000_000_000_000, 8_300_000_000_000_000),
+                    2 => rng.range(-400_000_000_000_000, 260_000_000_000_000),
+                    _ => rng.next() as i64,
+                };
+                emit(format!("conv {} {}", if rng.bool() { "de_chrono_dt" } else { "de_time_odt" }, ms))
+            }
+            4 | 5 => {
+                let x = match rng.below(4) {
+                    0 => *rng.pick(&[0i64, -1, day_ns - 1, day_ns, i64::MAX, i64::MIN, 1]),
+                    1 => rng.range(0, day_ns - 1),
+                    2 => rng.range(-day_ns, 2 * day_ns),
+                    _ => rng.next() as i64,
+                };
+                emit(format!("conv {} {}", if rng.bool() { "de_chrono_time" } else { "de_time_time" }, x))
+            }
+            _ => {
+                let secs = if rng.chance(1, 3) { 86_399 } else { rng.below(1440) * 60 + 59 };
+                let (r1, r2) = (rng.below(1_000_000_000), rng.below(2_000_000_000));
+                let frac = *rng.pick(&[0u64, 999_999_999, 1_000_000_000, 1_999_999_999, r1, r2]);
+                emit(format!("conv ser_chrono_time {} {}", secs, frac))
+            }
+        }
+    }
     for i in 0..n {
         match i % 11 {
             0 => {
